@@ -26,18 +26,22 @@ def taskName (s : State) : TaskId → String
   | .a i =>
     match s.aws[i]? with
     | some a =>
-      let k := ((s.aws.take i).filter fun b => b.kind == a.kind).length
+      -- reader tasks keep their number when their reader is disposed
+      let cls (k : AwKind) : Nat := match k with | .awaiter => 0 | .reader => 1 | .reader0 => 1 | .tick => 2 | .saw => 3
+      let k := ((s.aws.take i).filter fun b => cls b.kind == cls a.kind).length
       match a.kind with
       | .reader => "r" ++ toString k
+      | .reader0 => "r" ++ toString k
       | .awaiter => "a" ++ toString k
+      | .saw => "s" ++ toString k
       | .tick => "t" ++ toString (k + 1)
     | none => "?"
 
 def obs (s : State) : String :=
   let rl := showList ((readyList s).map (taskName s)) ","
   let fin := showList (s.curInputs.map toString) "."
-  let aw := showList ((s.aws.filter fun a => a.kind == .awaiter).map fun a =>
-    if a.done then showOpt a.result else "-") ","
+  let aw := showList ((s.aws.filter fun a => a.kind == .awaiter || a.kind == .saw).map fun a =>
+    if a.done then (if a.aborted then "x" else showOpt a.result) else "-") ","
   let eff := showList (s.eLog.map fun (d, m) => s!"{showOpt d}:{showOpt m}") ";"
   let v := match oracle s with | none => "ok" | some c => s!"fail {c}"
   s!"rl={rl} val={showOpt s.value} ld={showB s.loading} nf={s.nf} fin={fin} aw={aw} eff={eff} bp={s.pending} ## {v}"
@@ -105,7 +109,7 @@ def parseCfg (w : List String) : Option Cfg :=
 def stepOp (s : State) (w : List String) : Option State :=
   -- a `OnceResource` has no sources to write, no `refetch`, no `Write` impl and no `by_ref`
   if s.once && (w.head? == some "set" || w.head? == some "refetch" || w.head? == some "mset" ||
-      w == ["attach", "b"]) then none else
+      w == ["attach", "b"] || w == ["attach", "s"]) then none else
   -- a `LocalResource` has no `Write` impl, no `ready()`, no `by_ref()`
   if s.isLocal && (w.head? == some "mset" || w == ["attach", "b"] || w == ["attach", "r"]) then none else
   match w with
@@ -119,7 +123,11 @@ def stepOp (s : State) (w : List String) : Option State :=
     if f == "last" then some (step s (.complete (s.nf - 1)))
     else f.toNat?.map fun f => step s (.complete f)
   | ["attach"] => some (step s .attach)
-  | ["attach", k] => if k == "v" || k == "r" || k == "b" then some (step s .attach) else none
+  | ["attach", k] =>
+    if k == "v" || k == "r" || k == "b" then some (step s .attach)
+    else if k == "s" then some (step s .attachS)
+    else none
+  | ["bdrop"] => some (step s .bdrop)
   | ["poll", j] => j.toNat?.map fun j => step s (.poll j)
   | ["idle"] => some (runIdle (4 * s.aws.length + 16) s)
   | ["get"] => some (step s .get)
